@@ -9,6 +9,8 @@ import (
 	"reflect"
 	"regexp"
 	"strings"
+	"unicode"
+	"unicode/utf8"
 
 	"verif/core"
 	"verif/model"
@@ -38,6 +40,19 @@ type c12Address struct {
 	Zip   int32
 	Geo   c12Point
 	Owner *c12User
+}
+
+// field names that begin with letters outside ASCII: exported ones (upper case) and unexported ones (lower case)
+type c12Odd struct {
+	Name   string
+	édad   int
+	ñame   string
+	ωeight float64
+	_under int
+	я      bool
+	Ünit   string
+	Ωmega  int
+	Éa     []int
 }
 
 type c12Wide struct {
@@ -316,6 +331,15 @@ func (g *valueGen) value(depth int) genValue {
 		}
 		return gv
 	case 7: // every integer width in one struct
+		if r.Intn(3) == 0 {
+			o := c12Odd{Name: "n", édad: 3, ñame: "x", ωeight: 1.5, _under: 1, я: true, Ünit: stringPool[r.Intn(len(stringPool))], Ωmega: r.Intn(100), Éa: []int{1, 2}}
+			gv := genValue{goVal: o, hiddenNames: []string{"édad", "ñame", "ωeight", "_under", "я"}, view: model.Obj(map[string]model.Value{
+				"Name": model.Str("n"), "Ünit": model.Str(o.Ünit), "Ωmega": model.Int(int64(o.Ωmega)), "Éa": model.Arr(model.Int(1), model.Int(2))})}
+			if r.Intn(2) == 0 {
+				gv.goVal = &o
+			}
+			return gv
+		}
 		w := c12Wide{I8: math.MinInt8, I16: math.MaxInt16, I32: math.MinInt32, I64: math.MaxInt64, U: 7, U16: math.MaxUint16, U32: math.MaxUint32, U64: math.MaxInt64, F32: 0.5, B: true, pvt: 1}
 		return genValue{goVal: w, hiddenNames: []string{"pvt"}, view: model.Obj(map[string]model.Value{
 			"I8": model.Int(math.MinInt8), "I16": model.Int(math.MaxInt16), "I32": model.Int(math.MinInt32), "I64": model.Int(math.MaxInt64),
@@ -428,6 +452,13 @@ func pathsInto(r *rand.Rand, root string, v model.Value, hidden []string) []acce
 						forms = append(forms, prefix+"."+lower, prefix+"["+model.QuoteString(lower, '"')+"]")
 					}
 				}
+				if first, size := utf8.DecodeRuneInString(k); first >= utf8.RuneSelf && first != utf8.RuneError && unicode.ToLower(first) != first {
+					// a first letter outside ASCII is lower-cased like any other
+					lower := string(unicode.ToLower(first)) + k[size:]
+					if _, clash := v.O[lower]; !clash && unicode.ToUpper(unicode.ToLower(first)) == first {
+						forms = append(forms, prefix+"["+model.QuoteString(lower, '"')+"]")
+					}
+				}
 				if !model.CanQuote(k, '"') {
 					continue
 				}
@@ -451,8 +482,12 @@ func pathsInto(r *rand.Rand, root string, v model.Value, hidden []string) []acce
 	}
 	walk(root, v, 0)
 	for _, h := range hidden {
-		out = append(out, accessPath{src: root + "." + h, fail: true}, accessPath{src: root + `["` + h + `"]`, fail: true},
-			accessPath{src: root + "." + strings.ToUpper(h[:1]) + h[1:], fail: true})
+		first, size := utf8.DecodeRuneInString(h)
+		upper := string(unicode.ToUpper(first)) + h[size:]
+		out = append(out, accessPath{src: root + `["` + h + `"]`, fail: true}, accessPath{src: root + `["` + upper + `"]`, fail: true})
+		if identRe.MatchString(h) {
+			out = append(out, accessPath{src: root + "." + h, fail: true}, accessPath{src: root + "." + upper, fail: true})
+		}
 	}
 	return out
 }
